@@ -51,8 +51,16 @@ Definition required (c : case) : list (Z * Z) * option Z :=
   | CbDrain => (den_root (expr c), None)
   | m => gupto (interp_cb m) 0%nat (den_root (expr c))
   end.
+(* "stops at the first error": after a ForEach that returned an error the iterator stands on the failing element,
+   the last one the callback saw (nothing behind it has been asked for) *)
+Definition stopped_at_error (c : case) : bool :=
+  match mode c, err c with
+  | CbDrain, _ => true
+  | _, None => true
+  | _, Some _ => match post c with [(2, e)] => zz_eqb e (last (obs c) (0, 0)) | _ => false end
+  end.
 Definition oracle (c : case) : bool :=
-  agrees (required c) c && list_eqb lz_eqb (after c) (sources_root (expr c)).
+  agrees (required c) c && list_eqb lz_eqb (after c) (sources_root (expr c)) && stopped_at_error c.
 
 (* the operational model *)
 Definition lift_res (r : option (list Z * option Z)) : option (list (Z * Z) * option Z) :=
@@ -105,7 +113,12 @@ Definition model_post (c : case) : list (Z * (Z * Z)) :=
       | Some i => if is_snil i then [] else match sfinal FUEL i with Some i' => sagain 2 i' | None => [] end
       | None => []
       end
-  | _, _ => []
+  | _, _ =>
+      (* ForEach stops at the first error: the iterator stands on the element whose callback failed *)
+      match model c with
+      | Some (l, Some _) => [(2, last l (0, 0))]
+      | _ => []
+      end
   end.
 Definition post_eqb (a b : Z * (Z * Z)) : bool := Z.eqb (fst a) (fst b) && zz_eqb (snd a) (snd b).
 
